@@ -283,8 +283,12 @@ class Entity(ABC):
                 and current_parent != self._parent
                 and hasattr(current_parent, "remove_children")
             ):
-                current_parent.remove_children([self])
-                self.workspace.save_entity(self)
+                try:
+                    current_parent.remove_children([self])
+                    self.workspace.save_entity(self)
+                except Exception:
+                    self._parent = current_parent  # the move did not take place
+                    raise
 
     @property
     def partially_hidden(self) -> bool:
